@@ -64,7 +64,7 @@ type cliObs struct {
 	ReadLens  []int // successful read() results on the source, in order, up to the first injected read
 	EOFInject bool
 	Calls     map[string]int // "src:read" → count etc. (fault-free trace)
-	}
+}
 
 type injected struct {
 	Target, Syscall, Errno string
@@ -743,25 +743,25 @@ func CheckC18(e *Env) (int, error) {
 	wall := time.Since(e.Start).Seconds()
 	ev := &Evidence{PropertyID: "C18", Level: "fault_enumeration", Violations: len(viols),
 		Coverage: map[string]any{
-			"evaluations":         st.Runs,
-			"distinct_nontrivial": len(st.DistinctFault),
-			"rule": "one evaluation = one execution of the real peg binary in a fresh directory, judged by the executable model of the CLI contract; scenarios (grammar text x source x destination x options) are drawn from VERIF_SEED; for each scenario the fault-free trace is recorded and every openat/read/close position plus a seeded sample of write positions (always first three and last two) is injected with an errno or a premature EOF by the ptrace fault injector; distinct_nontrivial counts distinct (scenario, planned fault, fault that actually fired) triples in which the injector reports that the fault was applied to a call, i.e. it really hit an in-flight operation",
-			"samples":             st.Samples,
-			"scenarios":           len(scens),
-			"fault_free_runs":     st.FaultFree,
-			"faults_fired_by_kind": firedKinds,
-			"faults_fired_total":  totalFired,
+			"evaluations":                     st.Runs,
+			"distinct_nontrivial":             len(st.DistinctFault),
+			"rule":                            "one evaluation = one execution of the real peg binary in a fresh directory, judged by the executable model of the CLI contract; scenarios (grammar text x source x destination x options) are drawn from VERIF_SEED; for each scenario the fault-free trace is recorded and every openat/read/close position plus a seeded sample of write positions (always first three and last two) is injected with an errno or a premature EOF by the ptrace fault injector; distinct_nontrivial counts distinct (scenario, planned fault, fault that actually fired) triples in which the injector reports that the fault was applied to a call, i.e. it really hit an in-flight operation",
+			"samples":                         st.Samples,
+			"scenarios":                       len(scens),
+			"fault_free_runs":                 st.FaultFree,
+			"faults_fired_by_kind":            firedKinds,
+			"faults_fired_total":              totalFired,
 			"faults_configured_but_not_fired": st.NotFired,
-			"expectation_histogram": st.Expect,
-			"runs_with_exit_zero": st.ExitZero,
-			"distinct_behaviour_classes": len(st.Distinct),
-			"runs_per_hour":       int(float64(st.Runs) / wall * 3600),
-			"seeds":               1,
-			"simulated_time":      "n/a — the system under test reads no clock",
-			"traces_validated_against_impl": st.Runs,
-			"components_real":     []string{"peg binary built from /repo's working tree (main.go, front end, tree, set)", "Linux kernel file system for ENOENT/EISDIR/ENOTDIR//dev/full"},
-			"components_stub":     []string{"none: faults are injected at the system-call boundary by /verif/internal/ptrace (the call is skipped and the chosen errno or a zero-length read is returned); calls are counted globally per (path, system call), so a position is exact and replayable"},
-			"reference":           "library path (repository front end + tree.New + Compile) run in a separate process",
+			"expectation_histogram":           st.Expect,
+			"runs_with_exit_zero":             st.ExitZero,
+			"distinct_behaviour_classes":      len(st.Distinct),
+			"runs_per_hour":                   int(float64(st.Runs) / wall * 3600),
+			"seeds":                           1,
+			"simulated_time":                  "n/a — the system under test reads no clock",
+			"traces_validated_against_impl":   st.Runs,
+			"components_real":                 []string{"peg binary built from /repo's working tree (main.go, front end, tree, set)", "Linux kernel file system for ENOENT/EISDIR/ENOTDIR//dev/full"},
+			"components_stub":                 []string{"none: faults are injected at the system-call boundary by /verif/internal/ptrace (the call is skipped and the chosen errno or a zero-length read is returned); calls are counted globally per (path, system call), so a position is exact and replayable"},
+			"reference":                       "library path (repository front end + tree.New + Compile) run in a separate process",
 		},
 		Assumptions: []string{
 			"the ptrace injector (internal/ptrace) skips the chosen call and returns the chosen errno; its fault-free trace is cross-checked against strace by `verif selftest tracer`",
@@ -804,7 +804,7 @@ func newCliRig(e *Env, sc *Scratch) (*cliRig, error) {
 	if err := e.CopyRunner(repo, "refgen"); err != nil {
 		return nil, infra("refgen: %v", err)
 	}
-	if o, err := e.Go(repo, e.GoEnv(), "build", "-tags", "zzsim", "-o", rig.refgen, "./zzsim/refgen"); err != nil {
+	if o, err := e.Go(repo, e.GoEnv(), "build", "-trimpath", "-tags", "zzsim", "-o", rig.refgen, "./zzsim/refgen"); err != nil {
 		return nil, infra("building refgen failed: %v\n%s", err, o)
 	}
 	e.Logf("built peg and refgen")
